@@ -123,6 +123,9 @@ class Catalogue:
             else:
                 outer[k] = ("param", k)     # typed like a timer parameter, from what was captured at the arming sites
         outer["self"] = SELF
+        for k, (o, field) in getattr(eng, "_closure_alias", {}).get(func.qual, {}).items():
+            if o in outer:
+                outer[k] = ("attr", outer[o], field)
         return list(eng.run(func, {}, st, SELF, outer_env=outer))
 
     # ---- queries ---------------------------------------------------------
